@@ -104,6 +104,10 @@ META = {
                 tech="explicit-state BFS over put/pin/add/pop/rem histories of the real Suber, IoSuber and IoSetSuber on a real LMDB environment with a dict / dict-of-lists / dict-of-ordered-sets model; every other key re-read after every operation",
                 text="Keys {a, ab, a.b, (a,b), a.0, a.<32 hex zeros>} (prefixes of each other, separator and ordinal-suffix shapes), values {x,y}: Suber over all keys to depth 4/6, IoSuber and IoSetSuber over all keys to depth 3/4 and over each of the 15 key pairs to depth 4/6; states deduplicated on the raw LMDB content; result, get, cnt, getFirst, getLast of the operated key equal the model and the same reads of every other key are unchanged.",
                 note="The ordinal-suffix key collision of the insertion-ordered stores is a recorded KNOWN-FINDING (14 keys); after a violation the model follows the store so one defect is not reported as a cascade."),
+    "C25": dict(cat="model_checking", eng="E3/E2 product enumeration of forests x transition histories", ref="3 (C25)",
+                tech="exhaustive enumeration of every ordered box forest up to a size, every first box and every transition history up to 3 cycles (with bounded failing preconditions) on the real Boxer.run generator, action traces compared with a reference computed from the forest alone",
+                text="All ordered forests with 1..5 (quick) / 6 (thorough) boxes and depth <= 3 x every first box x every history of 0..3 cycles (no goact fires, or a box of the active pile fires to any destination: sibling, cousin, ancestor, descendant, self, other tree) with all preconditions met, or with 1 (thorough: up to 2) failing precondition, then the end flag: per cycle the exacts/rexacts/renacts/enacts trace must be exits bottom-up, re-exits bottom-up, re-enters top-down, enters top-down for exactly the reference boxes; two acts per context run in declaration order; a refused transition runs nothing and keeps the active box; ending exits the active pile once, bottom-up.",
+                note="Boxes are built by hand (Box, unders, goacts as plain callables); the builder verbs and Need/Act machinery are not exercised. Reference never reads Box.pile."),
     "C26": dict(cat="exploration", eng="E3 full enumeration", ref="3 (C26)",
                 tech="exhaustive enumeration of small input domains against arithmetic written from the statement",
                 text="Every integer below 2^18/2^22 x lengths 1..6 plus power-of-64 boundaries; every Base64 string up to length 3/4; every byte string up to 2/3 bytes x admissible sextet counts.",
@@ -161,8 +165,12 @@ def main():
                    baseline_off_cmd="cd /repo && /venv/bin/python -m pytest -ra -q -p no:cacheprovider --timeout=900 --continue-on-collection-errors",
                    source_commits=[], add_only=True),
         engines=[
-            dict(name="E1", path="vf/explore.py", serves_properties=[c["property_id"] for c in checks],
-                 kind_free_text="stateless replay-based choice explorer with iterative deviation bounding over the real Python code"),
+            dict(name="E1", path="vf/explore.py", serves_properties=[c["property_id"] for c in checks if c["engine"].startswith("E1")],
+                 kind_free_text="stateless replay-based choice explorer with iterative deviation bounding over the real Python code (every execution is replayed from a fresh harness; divergence while replaying a prefix is a hard error)"),
+            dict(name="E2", path="vf/enum.py", serves_properties=[c["property_id"] for c in checks if c["engine"].startswith("E2") or "E2" in c["engine"].split()[0]],
+                 kind_free_text="explicit-state breadth-first search over event histories of the real objects with canonical state keys and a reference model in lock step"),
+            dict(name="E3", path="vf/enum.py", serves_properties=[c["property_id"] for c in checks if c["engine"].startswith("E3")],
+                 kind_free_text="exhaustive product / sequence / mutation enumeration of a stated finite input space against the real code and a reference written from the statement"),
         ],
         checks=checks,
         notes="All checks run the working tree (/repo/src first on sys.path, verified at start). Genuine defects found are either "
